@@ -723,3 +723,450 @@ Section AddLocal.
     - exact (add_local_append l m dm mcs E K).
   Qed.
 End AddLocal.
+
+(* ------------------------------------------------------------------ *)
+(* forest-level facts                                                   *)
+
+Lemma find_rep_forest h x : forall F s, Forall (rep_t h None None None) F -> find_l x F = Some s ->
+  exists par prev nxt, rep_t h par prev nxt s.
+Proof.
+  induction F as [|t F IH]; intros s HF; [discriminate|].
+  apply Forall_cons_iff in HF as [Ht HF]. rewrite find_l_cons. destruct (find_t x t) eqn:E.
+  - intros [= <-]. eapply (proj1 (find_rep h x)); eauto.
+  - apply IH. exact HF.
+Qed.
+
+Lemma find_leaf x :
+  (forall t s, find_t x t = Some s -> leaf_text t = true -> leaf_text s = true) /\
+  (forall ts s, find_l x ts = Some s -> forallb leaf_text ts = true -> leaf_text s = true).
+Proof.
+  apply rt_mut_ind.
+  - intros i d cs IH s. rewrite find_t_unfold. destruct (i =? x); [intros [= <-]; auto|].
+    intros H. rewrite leaf_text_unfold. intros HL. apply andb_prop in HL as [_ HL]. eauto.
+  - discriminate.
+  - intros t ts IHt IHts s. rewrite find_l_cons. cbn [forallb]. intros H HL. apply andb_prop in HL as [H1 H2].
+    destruct (find_t x t) eqn:E; [injection H as <-; eauto | eauto].
+Qed.
+
+Lemma leaf_replace p new : leaf_text new = true ->
+  (forall t, leaf_text t = true -> leaf_text (replace_t p new t) = true) /\
+  (forall ts, forallb leaf_text ts = true -> forallb leaf_text (replace_l p new ts) = true).
+Proof.
+  intros Hn. apply rt_mut_ind.
+  - intros i d cs IH. simpl replace_t. destruct (i =? p); [auto|]. rewrite !leaf_text_unfold.
+    intros HL. apply andb_prop in HL as [H1 H2]. fold (replace_l p new cs). rewrite (IH H2), andb_true_r.
+    destruct cs; [exact H1|]. simpl. simpl in H1. exact H1.
+  - auto.
+  - intros t ts IHt IHts. unfold replace_l. cbn [map forallb]. intros HL. apply andb_prop in HL as [H1 H2].
+    rewrite (IHt H1). exact (IHts H2).
+Qed.
+
+Lemma leaf_snoc_merge cs tn : forallb leaf_text cs = true -> leaf_text tn = true ->
+  forallb leaf_text (snoc_merge cs tn) = true.
+Proof.
+  intros H1 H2. destruct (rev_cases cs) as [->|(l & x & ->)]; [simpl; rewrite H2; reflexivity|].
+  rewrite snoc_merge_app. rewrite forallb_app' in *. apply andb_prop in H1 as [H1 H3]. rewrite H1. cbn [andb].
+  cbn [forallb] in H3. rewrite andb_true_r in H3.
+  destruct x as [m dm mk]. destruct tn as [i di ncs].
+  destruct dm; try (cbn [forallb]; rewrite H3, H2; reflexivity).
+  destruct di; try (cbn [forallb]; rewrite H3, H2; reflexivity).
+  cbn [forallb]. rewrite andb_true_r. rewrite (leaf_text_is_leaf i content0 ncs H2). reflexivity.
+Qed.
+
+Lemma nodup_mid {A} (X Y Z : list A) :
+  NoDup (X ++ Y ++ Z) -> NoDup (X ++ Z) /\ NoDup Y /\ (forall a, In a Y -> ~ In a (X ++ Z)).
+Proof.
+  rewrite !NoDup_app_iff. intros (H1 & (H2 & H3 & H4) & H5). repeat split; auto.
+  - intros a Ha Hz. apply (H5 a Ha). apply in_or_app; auto.
+  - intros a Ha Hin. apply in_app_or in Hin as [Hin|Hin]; [apply (H5 a Hin); apply in_or_app; auto | exact (H4 a Ha Hin)].
+Qed.
+
+Lemma nodup_segment {A} (X S S' Z T : list A) :
+  NoDup (X ++ S ++ Z) -> NoDup S' -> (forall a, In a S' -> In a S \/ In a T) ->
+  (forall a, In a T -> ~ In a (X ++ S ++ Z)) -> NoDup (X ++ S' ++ Z).
+Proof.
+  rewrite !NoDup_app_iff. intros (H1 & (H2 & H3 & H4) & H5) HS' Hin HT. repeat split; auto.
+  - intros a Ha Hz. destruct (Hin a Ha) as [Hs|Ht]; [exact (H4 a Hs Hz)|].
+    apply (HT a Ht). apply in_or_app. right. apply in_or_app. auto.
+  - intros a Ha Hin'. apply in_app_or in Hin' as [Hs|Hz]; [|apply (H5 a Ha); apply in_or_app; auto].
+    destruct (Hin a Hs) as [Hs'|Ht]; [apply (H5 a Ha); apply in_or_app; auto|].
+    apply (HT a Ht). apply in_or_app. auto.
+Qed.
+
+Lemma Links_ext h h' F : (forall i, h' i = h i) -> Links h F -> Links h' F.
+Proof.
+  intros E (H1 & H2 & H3 & H4). split; [|split; [exact H2|split; [|exact H4]]].
+  - eapply Forall_impl; [|exact H1]. intros t Ht. eapply rep_frame; [|exact Ht]. intros; apply E.
+  - intros i. rewrite E. apply H3.
+Qed.
+
+Lemma ids_l_mid F1 tn F2 : ids_l (F1 ++ tn :: F2) = ids_l F1 ++ ids tn ++ ids_l F2.
+Proof. rewrite ids_l_app, ids_l_cons. reflexivity. Qed.
+
+(* wbxml_tree_add_node(tree, p, n) for a detached sub-tree tn and a node p elsewhere in the forest *)
+Lemma add_node_forest fuel t F1 tn F2 p sub :
+  Links (heap_of t) (F1 ++ tn :: F2) -> find_l p (F1 ++ F2) = Some sub -> is_text (rdata sub) = false ->
+  (length (rkids sub) < fuel)%nat ->
+  exists h', add_node fuel t (Some p) (rid tn) = TOk (with_heap t h') /\
+     Links h' (replace_l p (R p (rdata sub) (snoc_merge (rkids sub) tn)) (F1 ++ F2)).
+Proof.
+  intros (HF & HN & HC & HL) Hfind Htext Hfuel.
+  apply Forall_app in HF as [HF1 HF2]. apply Forall_cons_iff in HF2 as [Htn HF2].
+  assert (HF12 : Forall (rep_t (heap_of t) None None None) (F1 ++ F2)) by (apply Forall_app; auto).
+  rewrite ids_l_mid in HN. destruct (nodup_mid _ _ _ HN) as (N12 & Ntn & Ndis). rewrite <- ids_l_app in N12, Ndis.
+  rewrite forallb_app' in HL. cbn [forallb] in HL. apply andb_prop in HL as [HL1 HL2]. apply andb_prop in HL2 as [HLn HL2].
+  assert (HL12 : forallb leaf_text (F1 ++ F2) = true) by (rewrite forallb_app', HL1, HL2; reflexivity).
+  destruct (proj2 (find_some p) _ _ Hfind) as (Hrid & Hpin & Hsubin).
+  destruct sub as [p' d cs]. cbn [rid] in Hrid. subst p'. cbn [rdata rkids] in *.
+  destruct (find_rep_forest _ _ _ _ HF12 Hfind) as (par & prev & nxt & Hsub).
+  destruct tn as [n dn ncs]. cbn [rid].
+  destruct (proj2 (ids_replace_split p (R p d (snoc_merge cs (R n dn ncs)))) _ _ Hfind N12) as (A & B & EA & EB & ES).
+  assert (Nsub : NoDup (ids (R p d cs))) by (rewrite EA in N12; apply nodup_mid in N12; tauto).
+  assert (Hleaf : leaf_text (R p d cs) = true) by (eapply (proj2 (find_leaf p)); eauto).
+  rewrite leaf_text_unfold in Hleaf. apply andb_prop in Hleaf as [_ Hleaf].
+  destruct (add_local fuel t p n d dn par prev nxt cs ncs Hsub Htn) as (h' & Hrun & Hpost & Hframe & Hdead & Hcov & Hincl & Hnd');
+    [ apply NoDup_app_iff; repeat split; [exact Nsub | exact Ntn |]; intros x Hx Hx'; exact (Ndis x Hx' (Hsubin x Hx))
+    | exact Hleaf | exact HLn | exact Hfuel |].
+  exists h'. split; [exact Hrun|].
+  assert (Hp : heap_of t p = Some (mkN d par (head_id cs) nxt prev)) by (apply rep_t_unfold in Hsub; tauto).
+  split; [|split; [|split]].
+  - apply rep_replace_forest with (h := heap_of t); [reflexivity | | exact HF12 | exact N12 |].
+    + intros par' prev' nxt' d' c' E. rewrite Hp in E. injection E as <- <- <- <- <-. exact Hpost.
+    + intros j Hj Hs. rewrite ES in Hs. apply Hframe; [exact Hs|]. intros ->. apply (Ndis n); [simpl; auto | exact Hj].
+  - rewrite EB. eapply nodup_segment with (S := ids (R p d cs)) (T := ids (R n dn ncs)).
+    + rewrite <- EA. exact N12.
+    + exact Hnd'.
+    + intros a Ha. apply in_app_or. apply Hincl. exact Ha.
+    + intros a Ha. rewrite <- EA. apply Ndis. exact Ha.
+  - intros i Hi. rewrite EB. specialize (HC i (Hdead i Hi)). rewrite ids_l_mid in HC.
+    assert (HC' : In i (ids (R n dn ncs)) \/ In i (ids_l (F1 ++ F2))) by (rewrite ids_l_app; clear - HC; in_norm; tauto).
+    rewrite EA in HC'.
+    assert (In i (ids (R p d cs) ++ ids (R n dn ncs)) \/ In i A \/ In i B) as [Hin|Hin]
+      by (clear - HC'; repeat rewrite in_app_iff in *; tauto).
+    + specialize (Hcov i Hin Hi). apply in_or_app. right. apply in_or_app. auto.
+    + apply in_or_app. destruct Hin; [auto | right; apply in_or_app; auto].
+  - refine (proj2 (leaf_replace p _ _) _ HL12). rewrite leaf_text_unfold, Htext. cbn [negb orb andb].
+    apply leaf_snoc_merge; assumption.
+Qed.
+
+(* ------------------------------------------------------------------ *)
+(* allocation, data replacement                                         *)
+
+Lemma alloc_forest h F n d :
+  Links h F -> h n = None -> Links (upd h n (Some (mkN d None None None None))) (F ++ [R n d []]).
+Proof.
+  intros (HF & HN & HC & HL) Hn.
+  assert (Hnot : ~ In n (ids_l F)).
+  { intros Hin. unfold ids_l in Hin. apply in_flat_map in Hin as (t & Ht & Hin). rewrite Forall_forall in HF.
+    exact (rep_alloc _ _ _ _ _ _ (HF t Ht) Hin Hn). }
+  split; [|split; [|split]].
+  - apply Forall_app. split.
+    + rewrite Forall_forall in *. intros t Ht. eapply rep_frame; [|exact (HF t Ht)].
+      intros i Hi. apply upd_other. intros ->. apply Hnot. eapply in_ids_l; eauto.
+    + constructor; [|constructor]. apply rep_t_unfold. split; [apply upd_same | exact I].
+  - rewrite ids_l_app, ids_l_single. apply NoDup_app_iff. repeat split; [exact HN | constructor; [tauto|constructor] |].
+    intros x Hx [<-|[]]. exact (Hnot Hx).
+  - intros i. unfold upd. rewrite ids_l_app, ids_l_single. destruct (N.eqb_spec i n) as [->|Hne]; intros Hi; apply in_or_app.
+    + right. simpl. auto.
+    + left. apply HC. exact Hi.
+  - rewrite forallb_app', HL. cbn. rewrite orb_true_r. reflexivity.
+Qed.
+
+Lemma set_data_forest h F n sub d' r :
+  Links h F -> find_l n F = Some sub -> (is_text d' = false \/ rkids sub = []) -> h n = Some r ->
+  Links (upd h n (Some (set_data r d'))) (replace_l n (R n d' (rkids sub)) F).
+Proof.
+  intros (HF & HN & HC & HL) Hfind Hk Hr.
+  destruct (proj2 (find_some n) _ _ Hfind) as (Hrid & Hpin & Hsubin).
+  destruct sub as [n' d cs]. cbn [rid] in Hrid. subst n'. cbn [rdata rkids] in *.
+  destruct (find_rep_forest _ _ _ _ HF Hfind) as (par & prev & nxt & Hsub).
+  destruct (proj2 (ids_replace_split n (R n d' cs)) _ _ Hfind HN) as (A & B & EA & EB & ES).
+  assert (Nsub : NoDup (ids (R n d cs))) by (rewrite EA in HN; apply nodup_mid in HN; tauto).
+  apply rep_t_unfold in Hsub as [Hn Hcs]. rewrite Hn in Hr. injection Hr as <-.
+  rewrite ids_unfold in Nsub. apply NoDup_cons_iff in Nsub as [Nn Ncs].
+  split; [|split; [|split]].
+  - apply rep_replace_forest with (h := h); [reflexivity | | exact HF | exact HN |].
+    + intros par' prev' nxt' d0 c' E. rewrite Hn in E. injection E as <- <- <- <- <-.
+      apply rep_t_unfold. split; [rewrite upd_same; reflexivity|].
+      eapply rep_l_frame; [|exact Hcs]. intros i Hi. apply upd_other. intros ->. exact (Nn Hi).
+    + intros j Hj Hs. rewrite ES in Hs. apply upd_other. intros ->. apply Hs. simpl. auto.
+  - rewrite EB. rewrite ids_unfold. rewrite EA, ids_unfold in HN. exact HN.
+  - intros i. unfold upd. rewrite EB, ids_unfold. destruct (N.eqb_spec i n) as [->|Hne]; intros Hi.
+    + apply in_or_app. right. simpl. auto.
+    + specialize (HC i Hi). rewrite EA, ids_unfold in HC. exact HC.
+  - refine (proj2 (leaf_replace n _ _) _ HL). rewrite leaf_text_unfold.
+    assert (HLs : leaf_text (R n d cs) = true) by (eapply (proj2 (find_leaf n)); eauto).
+    rewrite leaf_text_unfold in HLs. apply andb_prop in HLs as [_ HLs]. rewrite HLs, andb_true_r.
+    destruct Hk as [-> | ->]; [reflexivity | apply orb_true_r].
+Qed.
+
+(* ------------------------------------------------------------------ *)
+(* wbxml_tree_extract_node: the local step                              *)
+
+Lemma get_upd_same h i v : get (upd h i (Some v)) i = TOk v.
+Proof. unfold get. rewrite upd_same. reflexivity. Qed.
+
+Lemma get_upd_other h i v j : j <> i -> get (upd h i v) j = get h j.
+Proof. intros H. unfold get. rewrite upd_other by exact H. reflexivity. Qed.
+
+Lemma last_or_in d l j : d <> Some j -> last_or d l = Some j -> In j (ids_l l).
+Proof.
+  revert d. induction l as [|a l IH]; intros d Hd E; [simpl in E; congruence|].
+  simpl in E. rewrite ids_l_cons. apply in_or_app. destruct (N.eq_dec (rid a) j) as [<-|Hne].
+  - left. apply rid_in_ids.
+  - right. apply (IH (Some (rid a))); [congruence | exact E].
+Qed.
+
+Lemma head_or_in d l j : d <> Some j -> head_or d l = Some j -> In j (ids_l l).
+Proof.
+  destruct l as [|a l]; simpl; intros Hd E; [congruence|]. injection E as <-. apply in_or_app. left. apply rid_in_ids.
+Qed.
+
+Section ExtractLocal.
+  Variables (t : tstate) (q x : id) (dq dx : data) (parq prevq nxtq : option id) (ls rs xcs : list rt).
+  Let h := heap_of t.
+  Let tx := R x dx xcs.
+  Hypothesis Hq : rep_t h parq prevq nxtq (R q dq (ls ++ tx :: rs)).
+  Hypothesis Hnd : NoDup (ids (R q dq (ls ++ tx :: rs))).
+
+  Definition ex_props (h' : heap) : Prop :=
+    h' x = Some (mkN dx None (head_id xcs) None None) /\
+    h' q = Some (mkN dq parq (head_id (ls ++ rs)) nxtq prevq) /\
+    (forall l0 lp, ls = l0 ++ [lp] -> forall r, h (rid lp) = Some r -> h' (rid lp) = Some (set_next r (head_or None rs))) /\
+    (forall r0 r1, rs = r0 :: r1 -> forall r, h (rid r0) = Some r -> h' (rid r0) = Some (set_prev r (last_or None ls))) /\
+    (forall j, j <> x -> j <> q -> last_or None ls <> Some j -> head_or None rs <> Some j -> h' j = h j).
+
+  Lemma ex_facts :
+    h q = Some (mkN dq parq (head_id (ls ++ tx :: rs)) nxtq prevq) /\
+    h x = Some (mkN dx (Some q) (head_id xcs) (head_or None rs) (last_or None ls)) /\
+    rep_l h (Some q) None (Some x) ls /\ rep_l h (Some x) None None xcs /\ rep_l h (Some q) (Some x) None rs /\
+    x <> q /\ ~ In x (ids_l ls) /\ ~ In x (ids_l rs) /\ ~ In q (ids_l ls) /\ ~ In q (ids_l rs) /\
+    ~ In x (ids_l xcs) /\ ~ In q (ids_l xcs) /\
+    NoDup (ids_l ls) /\ NoDup (ids_l rs) /\ NoDup (ids_l xcs) /\
+    (forall j, In j (ids_l ls) -> ~ In j (ids_l rs)) /\
+    (forall j, In j (ids_l xcs) -> ~ In j (ids_l ls) /\ ~ In j (ids_l rs)).
+  Proof.
+    apply rep_t_unfold in Hq as [Q1 Q2]. apply rep_l_app in Q2 as [Q2 Q3]. apply rep_l_cons in Q3 as [Q3 Q4].
+    unfold tx in Q3. apply rep_t_unfold in Q3 as [Q3 Q5]. cbn [head_or rid] in *.
+    unfold tx in Hnd. rewrite ids_unfold, ids_l_app, ids_l_cons, ids_unfold in Hnd.
+    apply NoDup_cons_iff in Hnd as [A1 A2]. apply NoDup_app_iff in A2 as (A2 & A3 & A4).
+    apply NoDup_cons_iff in A3 as [A3 A5]. apply NoDup_app_iff in A5 as (A5 & A6 & A7).
+    split; [exact Q1|]. split; [exact Q3|]. split; [exact Q2|]. split; [exact Q5|]. split; [exact Q4|].
+    split; [intros ->; apply A1; in_norm; tauto|].
+    split; [intros Hin; apply (A4 x Hin); simpl; auto|].
+    split; [intros Hin; apply A3; in_norm; tauto|].
+    split; [intros Hin; apply A1; in_norm; tauto|].
+    split; [intros Hin; apply A1; in_norm; tauto|].
+    split; [intros Hin; apply A3; in_norm; tauto|].
+    split; [intros Hin; apply A1; in_norm; tauto|].
+    split; [exact A2|]. split; [exact A6|]. split; [exact A5|].
+    split; [intros j Hj Hj'; apply (A4 j Hj); in_norm; tauto|].
+    intros j Hj. split; [intros Hj'; apply (A4 j Hj'); in_norm; tauto | exact (A7 j Hj)].
+  Qed.
+
+  Lemma head_ls_not_x l0 lp : ls = l0 ++ [lp] -> exists c, head_id (ls ++ tx :: rs) = Some c /\ c <> x /\ In c (ids_l ls).
+  Proof.
+    intros E. destruct ex_facts as (_ & _ & _ & _ & _ & _ & Nx & _).
+    destruct ls as [|a ls']; [destruct l0; discriminate|]. exists (rid a). split; [reflexivity|].
+    assert (In (rid a) (ids_l (a :: ls'))) by (rewrite ids_l_cons; apply in_or_app; left; apply rid_in_ids).
+    split; [intros Heq; apply Nx; rewrite <- Heq; exact H | exact H].
+  Qed.
+
+  Lemma extract_run : exists h', extract_node t x = TOk (mkT h' (root t) (cur_page t) (fresh t)) /\ ex_props h'.
+  Proof.
+    destruct ex_facts as (Q1 & Q3 & Q2 & Q5 & Q4 & Dxq & Nxl & Nxr & Nql & Nqr & Nxx & Nqx & U1 & U2 & U3 & U4 & U5).
+    pose proof head_ls_not_x as Hhead.
+    unfold extract_node. fold h. rewrite (get_some _ _ _ Q3). rec_simpl. rewrite (get_some _ _ _ Q1). rec_simpl.
+    destruct (rev_cases ls) as [El|(l0 & lp & El)]; destruct rs as [|r0 r1] eqn:Er.
+    - (* only child *)
+      rewrite El in *. cbn [app head_id rid last_or head_or] in *. unfold oeqb. rewrite N.eqb_refl.
+      repeat (first [rewrite get_upd_same | rewrite get_upd_other by congruence | rewrite (get_some h _ _ Q3)]; rec_simpl).
+      eexists. split; [reflexivity|]. unfold ex_props. rewrite ?El, ?Er. cbn [app head_id last_or head_or].
+      split; [upd_simpl; reflexivity|]. split; [upd_simpl; reflexivity|].
+      split; [intros l0' lp' E; destruct l0'; discriminate|]. split; [discriminate|].
+      intros j H1 H2 _ _. upd_simpl. reflexivity.
+    - (* first child, with a next sibling r0 *)
+      rewrite El in *. cbn [app head_id rid last_or head_or] in *. unfold oeqb. rewrite N.eqb_refl.
+      apply rep_l_cons in Q4 as [Q4 Q6]. destruct r0 as [nx d0 cs0]. apply rep_t_unfold in Q4 as [Q4 _]. cbn [rid] in *.
+      assert (Dnx : nx <> x) by (intros ->; apply Nxr; in_norm; tauto).
+      assert (Dnq : nx <> q) by (intros ->; apply Nqr; in_norm; tauto).
+      repeat (first [rewrite get_upd_same | rewrite get_upd_other by congruence | rewrite (get_some h _ _ Q3)
+                    | rewrite (get_some h _ _ Q4)]; rec_simpl).
+      eexists. split; [reflexivity|]. unfold ex_props. rewrite ?El, ?Er. cbn [app head_id rid last_or head_or].
+      split; [upd_simpl; reflexivity|]. split; [upd_simpl; reflexivity|].
+      split; [intros l0' lp' E; destruct l0'; discriminate|].
+      split; [intros r0' r1' E r Hr; injection E as <- <-; cbn [rid] in *; rewrite Q4 in Hr; injection Hr as <-;
+              upd_simpl; reflexivity|].
+      intros j H1 H2 _ H4. assert (j <> nx) by congruence. upd_simpl. reflexivity.
+    - (* last child, with a previous sibling lp *)
+      destruct (Hhead l0 lp El) as (c & Hc & Dc & _). rewrite Hc. unfold oeqb.
+      destruct (N.eqb_spec c x) as [|_]; [contradiction|].
+      rewrite El in Q2. apply rep_l_app in Q2 as [Q2 Q6]. cbn [rep_l] in Q6. destruct Q6 as [Q6 _].
+      destruct lp as [pv d0 cs0]. apply rep_t_unfold in Q6 as [Q6 _]. cbn [rid head_or] in *.
+      assert (Ipv : In pv (ids_l ls)) by (rewrite El; apply in_ids_l_last; simpl; auto).
+      assert (Dpx : pv <> x) by (intros ->; exact (Nxl Ipv)).
+      assert (Dpq : pv <> q) by (intros ->; exact (Nql Ipv)).
+      rewrite El, last_or_app in *. cbn [rid] in *.
+      repeat (first [rewrite get_upd_same | rewrite get_upd_other by congruence | rewrite (get_some h _ _ Q3)
+                    | rewrite (get_some h _ _ Q6)]; rec_simpl).
+      eexists. split; [reflexivity|]. unfold ex_props. rewrite ?El, ?Er, ?last_or_app, ?app_nil_r. cbn [rid head_or].
+      split; [upd_simpl; reflexivity|].
+      split; [upd_simpl; rewrite Q1; f_equal; f_equal; destruct l0; reflexivity|].
+      split; [intros l0' lp' E r Hr; apply app_inj_tail in E as [_ <-]; cbn [rid] in *; rewrite Q6 in Hr; injection Hr as <-;
+              upd_simpl; reflexivity|].
+      split; [discriminate|].
+      intros j H1 H2 H3 _. assert (j <> pv) by congruence. upd_simpl. reflexivity.
+    - (* between lp and r0 *)
+      destruct (Hhead l0 lp El) as (c & Hc & Dc & _). rewrite Hc. unfold oeqb.
+      destruct (N.eqb_spec c x) as [|_]; [contradiction|].
+      rewrite El in Q2. apply rep_l_app in Q2 as [Q2 Q6]. cbn [rep_l] in Q6. destruct Q6 as [Q6 _].
+      destruct lp as [pv d0 cs0]. apply rep_t_unfold in Q6 as [Q6 _]. cbn [rid head_or] in *.
+      apply rep_l_cons in Q4 as [Q4 Q7]. destruct r0 as [nx d1 cs1]. apply rep_t_unfold in Q4 as [Q4 _]. cbn [rid] in *.
+      assert (Ipv : In pv (ids_l ls)) by (rewrite El; apply in_ids_l_last; simpl; auto).
+      assert (Inx : In nx (ids_l (R nx d1 cs1 :: r1))) by (in_norm; tauto).
+      assert (Dpx : pv <> x) by (intros ->; exact (Nxl Ipv)).
+      assert (Dpq : pv <> q) by (intros ->; exact (Nql Ipv)).
+      assert (Dnx : nx <> x) by (intros ->; exact (Nxr Inx)).
+      assert (Dnq : nx <> q) by (intros ->; exact (Nqr Inx)).
+      assert (Dpn : pv <> nx) by (intros ->; exact (U4 _ Ipv Inx)).
+      rewrite El, last_or_app in *. cbn [rid] in *.
+      repeat (first [rewrite get_upd_same | rewrite get_upd_other by congruence | rewrite (get_some h _ _ Q3)
+                    | rewrite (get_some h _ _ Q4) | rewrite (get_some h _ _ Q6)]; rec_simpl).
+      eexists. split; [reflexivity|]. unfold ex_props. rewrite ?El, ?Er, ?last_or_app. cbn [rid head_or].
+      split; [upd_simpl; reflexivity|].
+      split; [upd_simpl; rewrite Q1; f_equal; f_equal; destruct l0; reflexivity|].
+      split; [intros l0' lp' E r Hr; apply app_inj_tail in E as [_ <-]; cbn [rid] in *; rewrite Q6 in Hr; injection Hr as <-;
+              upd_simpl; reflexivity|].
+      split; [intros r0' r1' E r Hr; injection E as <- <-; cbn [rid] in *; rewrite Q4 in Hr; injection Hr as <-;
+              upd_simpl; reflexivity|].
+      intros j H1 H2 H3 H4. assert (j <> pv) by congruence. assert (j <> nx) by congruence.
+      upd_simpl. reflexivity.
+  Qed.
+
+  Lemma extract_local_rep h' : ex_props h' ->
+    rep_t h' parq prevq nxtq (R q dq (ls ++ rs)) /\ rep_t h' None None None tx /\
+    (forall j, ~ In j (ids (R q dq (ls ++ tx :: rs))) -> h' j = h j).
+  Proof.
+    intros (P1 & P2 & P3 & P4 & P5).
+    destruct ex_facts as (Q1 & Q3 & Q2 & Q5 & Q4 & Dxq & Nxl & Nxr & Nql & Nqr & Nxx & Nqx & U1 & U2 & U3 & U4 & U5).
+    assert (Fr : forall j, j <> x -> j <> q -> ~ (In j (ids_l ls) /\ last_or None ls = Some j) ->
+                           ~ (In j (ids_l rs) /\ head_or None rs = Some j) -> h' j = h j).
+    { intros j H1 H2 H3 H4. apply P5; [exact H1 | exact H2 | |].
+      - intros E. apply H3. split; [apply last_or_in with (d := None); [discriminate | exact E] | exact E].
+      - intros E. apply H4. split; [apply head_or_in with (d := None); [discriminate | exact E] | exact E]. }
+    split; [|split].
+    - apply rep_t_unfold. split; [exact P2|]. apply rep_l_app. split.
+      + destruct (rev_cases ls) as [El|(l0 & lp & El)]; [rewrite El; exact I|].
+        rewrite El. eapply relink_last with (h := h).
+        * rewrite <- El. exact Q2.
+        * rewrite <- El. exact U1.
+        * apply (P3 l0 lp El).
+        * rewrite <- El. intros j Hj Hne. apply Fr.
+          -- intros ->. exact (Nxl Hj).
+          -- intros ->. exact (Nql Hj).
+          -- intros [_ E]. rewrite El, last_or_app in E. congruence.
+          -- intros [Hj' _]. exact (U4 j Hj Hj').
+      + destruct rs as [|r0 r1] eqn:Er; [exact I|].
+        eapply relink_head with (h := h).
+        * exact Q4.
+        * exact U2.
+        * apply (P4 r0 r1 eq_refl).
+        * intros j Hj Hne. apply Fr.
+          -- intros ->. exact (Nxr Hj).
+          -- intros ->. exact (Nqr Hj).
+          -- intros [Hj' _]. exact (U4 j Hj' Hj).
+          -- intros [_ E]. cbn [head_or] in E. congruence.
+    - unfold tx. apply rep_t_unfold. split; [exact P1|]. eapply rep_l_frame; [|exact Q5].
+      intros j Hj. destruct (U5 j Hj) as [V1 V2]. apply Fr.
+      + intros ->. exact (Nxx Hj).
+      + intros ->. exact (Nqx Hj).
+      + tauto.
+      + tauto.
+    - intros j Hj. apply Fr.
+      + intros ->. apply Hj. unfold tx. clear. in_norm. tauto.
+      + intros ->. apply Hj. clear. in_norm. tauto.
+      + intros [Hj' _]. apply Hj. clear - Hj'. in_norm. tauto.
+      + intros [Hj' _]. apply Hj. clear - Hj'. in_norm. tauto.
+  Qed.
+End ExtractLocal.
+
+(* ------------------------------------------------------------------ *)
+(* wbxml_tree_extract_node at forest level                              *)
+
+Lemma find_notin x : (forall t, ~ In x (ids t) -> find_t x t = None) /\ (forall ts, ~ In x (ids_l ts) -> find_l x ts = None).
+Proof.
+  split.
+  - intros t H. destruct (find_t x t) eqn:E; [|reflexivity]. exfalso. apply H. exact (proj1 (proj2 (proj1 (find_some x) _ _ E))).
+  - intros ts H. destruct (find_l x ts) eqn:E; [|reflexivity]. exfalso. apply H. exact (proj1 (proj2 (proj2 (find_some x) _ _ E))).
+Qed.
+
+(* a node that is not one of the roots has a parent in the forest *)
+Lemma find_parent x :
+  (forall t, NoDup (ids t) -> In x (ids t) -> x = rid t \/
+     exists q d ls tx rs, find_t q t = Some (R q d (ls ++ tx :: rs)) /\ rid tx = x) /\
+  (forall ts, NoDup (ids_l ts) -> In x (ids_l ts) ->
+     (exists ls tx rs, ts = ls ++ tx :: rs /\ rid tx = x) \/
+     exists q d ls tx rs, find_l q ts = Some (R q d (ls ++ tx :: rs)) /\ rid tx = x).
+Proof.
+  apply rt_mut_ind.
+  - intros i d cs IH Hnd Hin. rewrite ids_unfold in *. apply NoDup_cons_iff in Hnd as [Hni Hnd].
+    destruct Hin as [<-|Hin]; [left; reflexivity|]. right.
+    destruct (IH Hnd Hin) as [(ls & tx & rs & E & Hr)|(q & dq & ls & tx & rs & E & Hr)].
+    + exists i, d, ls, tx, rs. rewrite find_t_unfold, N.eqb_refl, E. auto.
+    + exists q, dq, ls, tx, rs. rewrite find_t_unfold.
+      destruct (N.eqb_spec i q) as [->|_]; [|auto].
+      exfalso. apply Hni. exact (proj1 (proj2 (proj2 (find_some q) _ _ E))).
+  - simpl. tauto.
+  - intros t ts IHt IHts Hnd Hin. rewrite ids_l_cons in *. apply NoDup_app_iff in Hnd as (N1 & N2 & N3).
+    apply in_app_or in Hin as [Hin|Hin].
+    + destruct (IHt N1 Hin) as [->|(q & dq & ls & tx & rs & E & Hr)].
+      * left. exists [], t, ts. auto.
+      * right. exists q, dq, ls, tx, rs. rewrite find_l_cons, E. auto.
+    + destruct (IHts N2 Hin) as [(ls & tx & rs & E & Hr)|(q & dq & ls & tx & rs & E & Hr)].
+      * left. exists (t :: ls), tx, rs. rewrite E. auto.
+      * right. exists q, dq, ls, tx, rs. rewrite find_l_cons.
+        assert (Hq : In q (ids_l ts)) by exact (proj1 (proj2 (proj2 (find_some q) _ _ E))).
+        rewrite (proj1 (find_notin q) t); [auto|]. intros Hq'. exact (N3 q Hq' Hq).
+Qed.
+
+Lemma extract_forest t F x :
+  Links (heap_of t) F -> In x (ids_l F) -> ~ In x (map rid F) ->
+  exists h' q dq ls tx rs, extract_node t x = TOk (mkT h' (root t) (cur_page t) (fresh t)) /\
+     find_l q F = Some (R q dq (ls ++ tx :: rs)) /\ rid tx = x /\
+     Links h' (replace_l q (R q dq (ls ++ rs)) F ++ [tx]).
+Proof.
+  intros (HF & HN & HC & HL) Hin Hnr.
+  destruct (proj2 (find_parent x) F HN Hin) as [(ls & tx & rs & E & Hr)|(q & dq & ls & tx & rs & Hfind & Hr)].
+  { exfalso. apply Hnr. rewrite E, map_app. apply in_or_app. right. simpl. auto. }
+  destruct (find_rep_forest _ _ _ _ HF Hfind) as (parq & prevq & nxtq & Hsub).
+  destruct (proj2 (ids_replace_split q (R q dq (ls ++ rs))) _ _ Hfind HN) as (A & B & EA & EB & ES).
+  assert (Nsub : NoDup (ids (R q dq (ls ++ tx :: rs)))) by (rewrite EA in HN; apply nodup_mid in HN; tauto).
+  destruct tx as [x' dx xcs]. cbn [rid] in Hr. subst x'.
+  destruct (extract_run t q x dq dx parq prevq nxtq ls rs xcs Hsub Nsub) as (h' & Hrun & Hprops).
+  destruct (extract_local_rep t q x dq dx parq prevq nxtq ls rs xcs Hsub Nsub h' Hprops) as (R1 & R2 & R3).
+  exists h', q, dq, ls, (R x dx xcs), rs. split; [exact Hrun|]. split; [exact Hfind|]. split; [reflexivity|].
+  assert (Hq : heap_of t q = Some (mkN dq parq (head_id (ls ++ R x dx xcs :: rs)) nxtq prevq)) by (apply rep_t_unfold in Hsub; tauto).
+  assert (HLs : leaf_text (R q dq (ls ++ R x dx xcs :: rs)) = true) by (eapply (proj2 (find_leaf q)); eauto).
+  rewrite leaf_text_unfold, forallb_app' in HLs. cbn [forallb] in HLs.
+  apply andb_prop in HLs as [HL0 HLs]. apply andb_prop in HLs as [HLl HLs]. apply andb_prop in HLs as [HLx HLr].
+  split; [|split; [|split]].
+  - apply Forall_app. split; [|constructor; [exact R2 | constructor]].
+    apply rep_replace_forest with (h := heap_of t); [reflexivity | | exact HF | exact HN |].
+    + intros par' prev' nxt' d' c' E. rewrite Hq in E. injection E as <- <- <- <- <-. exact R1.
+    + intros j Hj Hs. rewrite ES in Hs. apply R3. exact Hs.
+  - rewrite ids_l_app, ids_l_single, EB. rewrite EA in HN. eapply Permutation_NoDup; [|exact HN].
+    rewrite !ids_unfold, !ids_l_app, !ids_l_cons, ids_unfold. repeat rewrite <- app_assoc. cbn [app].
+    apply Permutation_app_head. repeat rewrite <- app_assoc. cbn [app]. constructor. apply Permutation_app_head.
+    match goal with |- Permutation ?L ?Rr =>
+      replace L with ((x :: ids_l xcs) ++ (ids_l rs ++ B)) by (repeat rewrite <- app_assoc; reflexivity);
+      replace Rr with ((ids_l rs ++ B) ++ (x :: ids_l xcs)) by (repeat rewrite <- app_assoc; reflexivity)
+    end.
+    apply Permutation_app_comm.
+  - intros i Hi. rewrite ids_l_app, ids_l_single, EB.
+    destruct (in_dec N.eq_dec i (ids (R q dq (ls ++ R x dx xcs :: rs)))) as [Hs|Hs].
+    + clear - Hs. in_norm. tauto.
+    + rewrite (R3 i Hs) in Hi. specialize (HC i Hi). rewrite EA in HC. clear - HC Hs. in_norm. tauto.
+  - rewrite forallb_app'. cbn [forallb]. rewrite HLx. cbn [andb]. rewrite andb_true_r.
+    refine (proj2 (leaf_replace q _ _) _ HL). rewrite leaf_text_unfold, forallb_app', HLl, HLr. cbn [andb]. rewrite andb_true_r.
+    destruct (is_text dq); [|reflexivity]. cbn [negb orb] in HL0. destruct ls; discriminate.
+Qed.
